@@ -1162,3 +1162,17 @@ add("b19t", ["C19"], (Q, """        self._pending_required = []
         if self.jobs:
             self.jobs[0].requires(required)
 """), expect='silent')
+
+# ------------------------------------------------------------------ configuration is what the caller gave
+add("m05x", ["C05", "C06", "C04"], (J, "        return self.critical\n", "        return self.critical and not self.forever\n"),
+    rules=["R05.9", "R06.8", "R04.9"], note="is_critical() is no longer the flag")
+add("m05y", ["C05", "C04"], (J, "        self.critical = critical\n", "        self.critical = critical and not forever\n"),
+    rules=["R05.9", "R04.9"])
+add("m09x", ["C09"], (J, "        self.forever = forever\n", "        self.forever = forever and not critical\n"), rules=["R09.6"])
+add("m08x", ["C08", "C04"], (P, "        self.timeout = timeout\n", "        self.timeout = timeout or None\n"), rules=["R08.6", "R04.9"],
+    note="a timeout of 0 becomes no timeout at all")
+add("m07x", ["C07"], (P, "        self.jobs_window = jobs_window\n", "        self.jobs_window = jobs_window and max(jobs_window, 2)\n"), rules=["R07.5"])
+add("m13x", ["C13"], (P, "        self.shutdown_timeout = shutdown_timeout\n", "        self.shutdown_timeout = shutdown_timeout or 1\n"), rules=["R13.8"])
+add("m10x", ["C10"], (S, "                               jobs_window=jobs_window, timeout=timeout,", "                               jobs_window=jobs_window, timeout=timeout or None,"), rules=["R10.8"])
+add("m08y", ["C08"], (P, "                self._failed_timeout = self.timeout\n", "                self._failed_timeout = self.timeout\n                self.timeout = None\n"), rules=["R08.6"])
+add("b05x", ["C05", "C09", "C08"], (J, "        self.forever = forever\n        self.critical = critical\n", "        self.critical = critical\n        self.forever = forever\n"), expect='silent')
